@@ -238,7 +238,18 @@ func (c *c14Child) kill() {
 
 func (c *c14Child) stderrTail(n int) string {
 	b, _ := os.ReadFile(c.stderr)
-	lines := strings.Split(string(b), "\n")
+	// a crash report starts at "panic:" / "fatal error:" and is followed by every goroutine: show its head
+	txt := string(b)
+	for _, mark := range []string{"\npanic: ", "\nfatal error: ", "panic: ", "fatal error: "} {
+		if i := strings.LastIndex(txt, mark); i >= 0 {
+			lines := strings.Split(txt[i:], "\n")
+			if len(lines) > n {
+				lines = lines[:n]
+			}
+			return strings.TrimSpace(strings.Join(lines, "\n"))
+		}
+	}
+	lines := strings.Split(txt, "\n")
 	if len(lines) > n {
 		lines = lines[len(lines)-n:]
 	}
